@@ -67,33 +67,80 @@ func allStrings(alpha []string, n int) []string {
 type tokenParams struct {
 	maxLen   int // sequences up to this length
 	unpruned int // all sequences up to this length are visited, pruned or not (validates the pruning)
+	fullCfgs int // sequences up to this length are parsed under all four configurations, longer ones under the two diagonal ones
+	alphabet []string
 }
+
+var diagonalCfgs = []Cfg{{false, false}, {true, true}}
+
+// groupPrefixLen: token sequences are sharded by their first three tokens; a shorter sequence is
+// owned by the group whose remaining prefix tokens all have index 0.
+const groupPrefixLen = 3
 
 func tokenGroups(tp tokenParams) []group {
 	var gs []group
+	tokenAlphabet := tp.alphabet
 	n := len(tokenAlphabet)
-	// one group per first two tokens; the length-1 sequences and the empty one ride with group (i,0)
-	for i := 0; i < n; i++ {
-		for j := 0; j < n; j++ {
-			i, j := i, j
-			gs = append(gs, group{fmt.Sprintf("text/%s %s", tokenAlphabet[i], tokenAlphabet[j]), func(c *mc.Ctx, emit func(*Case)) {
-				e := &tokenEnum{c: c, emit: emit, tp: tp}
-				first := tokenAlphabet[i]
-				deadFirst := deadPrefix(first)
-				if j == 0 {
-					e.visit(first, []int{i}, false)
+	total := 1
+	for k := 0; k < groupPrefixLen; k++ {
+		total *= n
+	}
+	for g := 0; g < total; g++ {
+		prefix := make([]int, groupPrefixLen)
+		for k, x := groupPrefixLen-1, g; k >= 0; k-- {
+			prefix[k] = x % n
+			x /= n
+		}
+		gs = append(gs, group{"text/" + fmt.Sprint(prefix), func(c *mc.Ctx, emit func(*Case)) {
+			e := &tokenEnum{c: c, emit: emit, tp: tp}
+			text := ""
+			dead := false
+			for k := 1; k <= groupPrefixLen && k <= tp.maxLen; k++ {
+				if k > 1 {
+					text += " "
 				}
-				if tp.maxLen < 2 || (deadFirst && 1 >= tp.unpruned) {
-					if deadFirst {
+				text += tokenAlphabet[prefix[k-1]]
+				owner := true
+				for _, x := range prefix[k:] {
+					if x != 0 {
+						owner = false
+					}
+				}
+				if k == groupPrefixLen {
+					e.dfs(text, prefix, dead)
+					return
+				}
+				if owner {
+					e.visit(text, prefix[:k], dead)
+				}
+				if k >= tp.maxLen {
+					return
+				}
+				dead = dead || deadPrefix(text)
+				if dead && k >= tp.unpruned {
+					if owner {
 						c.Inc("text:prefixes_pruned")
 					}
 					return
 				}
-				e.dfs(first+" "+tokenAlphabet[j], []int{i, j}, deadFirst)
-			}})
-		}
+			}
+		}})
 	}
 	return gs
+}
+
+func tokensOf(tier string) []string {
+	if tier == "thorough" {
+		return tokenAlphabet
+	}
+	// quick: the 23 tokens of the design (without the comparators "<" and ">=")
+	var out []string
+	for _, t := range tokenAlphabet {
+		if t != "<" && t != ">=" {
+			out = append(out, t)
+		}
+	}
+	return out
 }
 
 type tokenEnum struct {
@@ -107,7 +154,11 @@ type tokenEnum struct {
 // number (syntax does not depend on the configuration).
 func (e *tokenEnum) visit(text string, seq []int, dead bool) {
 	e.c.Inc("text:sequences")
-	for ci, cfg := range allCfgs {
+	cfgs := allCfgs
+	if len(seq) > e.tp.fullCfgs {
+		cfgs = diagonalCfgs
+	}
+	for ci, cfg := range cfgs {
 		cs := &Case{Kind: "text", Cfg: cfg, Query: text}
 		o := &obs{}
 		var ps []Problem
@@ -116,7 +167,7 @@ func (e *tokenEnum) visit(text string, seq []int, dead bool) {
 		}
 		if o.accepted {
 			for _, t := range seq {
-				o.fact("tok:" + tokenAlphabet[t])
+				o.fact("tok:" + e.tp.alphabet[t])
 			}
 			o.fact(fmt.Sprintf("text:accepted-length:%d", len(seq)))
 			if dead {
@@ -144,7 +195,7 @@ func (e *tokenEnum) dfs(text string, seq []int, deadAncestor bool) {
 		e.c.Inc("text:prefixes_pruned")
 		return
 	}
-	for t, tok := range tokenAlphabet {
+	for t, tok := range e.tp.alphabet {
 		e.dfs(text+" "+tok, append(seq[:len(seq):len(seq)], t), dead)
 	}
 }
@@ -254,7 +305,7 @@ func constructedGroups(name string, shapeList []*Node, alpha []string, maxLen in
 }
 
 // pairGroups: two adversarial values in one constructed query.
-func constructedPairGroups(alpha []string, maxLen int) []group {
+func constructedPairGroups(alpha []string, maxLen int, cfgs []Cfg) []group {
 	c := func() *Node { return &Node{} }
 	type pairShape struct {
 		sh   *Node
@@ -284,7 +335,7 @@ func constructedPairGroups(alpha []string, maxLen int) []group {
 						}
 						return "b"
 					})
-					for _, cfg := range allCfgs {
+					for _, cfg := range cfgs {
 						emit(&Case{Kind: "constructed", Cfg: cfg, Tree: tree, Focus: -1})
 					}
 				}
@@ -350,23 +401,24 @@ func templatePairGroups(kind string, alpha []string, maxLen int, cfgs []Cfg) []g
 
 func allGroups(tier string) []group {
 	var gs []group
-	twoCfgs := []Cfg{{false, false}, {true, true}}
+	twoCfgs := diagonalCfgs
 	if tier == "thorough" {
-		gs = append(gs, tokenGroups(tokenParams{maxLen: 6, unpruned: 4})...)
+		gs = append(gs, tokenGroups(tokenParams{maxLen: 6, unpruned: 4, fullCfgs: 5, alphabet: tokensOf(tier)})...)
 		gs = append(gs, constructedGroups("constructed-long", selectedShapes(), sigma, 5, twoCfgs)...)
-		gs = append(gs, constructedGroups("constructed-all-shapes", shapes(), sigmaPlus, 3, allCfgs)...)
-		gs = append(gs, constructedPairGroups(sigmaPlus, 2)...)
-		gs = append(gs, constructedPairGroups(sigma, 3)...)
+		gs = append(gs, constructedGroups("constructed-all-shapes", shapes(), sigmaPlus, 2, allCfgs)...)
+		gs = append(gs, constructedGroups("constructed-all-shapes-3", shapes(), sigma, 3, twoCfgs)...)
+		gs = append(gs, constructedPairGroups(sigmaPlus, 2, allCfgs)...)
+		gs = append(gs, constructedPairGroups(sigma, 3, twoCfgs)...)
 		gs = append(gs, templateGroups(sigma, 5, twoCfgs)...)
 		gs = append(gs, templatePairGroups("template", sigmaPlus, 2, allCfgs)...)
 		gs = append(gs, templatePairGroups("template", sigma, 3, twoCfgs)...)
 		gs = append(gs, templatePairGroups("engine", sigmaPlus, 2, twoCfgs)...)
 		return gs
 	}
-	gs = append(gs, tokenGroups(tokenParams{maxLen: 5, unpruned: 3})...)
+	gs = append(gs, tokenGroups(tokenParams{maxLen: 5, unpruned: 3, fullCfgs: 4, alphabet: tokensOf(tier)})...)
 	gs = append(gs, constructedGroups("constructed-long", selectedShapes(), sigma, 4, twoCfgs)...)
-	gs = append(gs, constructedGroups("constructed-all-shapes", shapes(), sigmaPlus, 2, allCfgs)...)
-	gs = append(gs, constructedPairGroups(sigmaPlus, 2)...)
+	gs = append(gs, constructedGroups("constructed-all-shapes", shapes(), sigmaPlus, 2, twoCfgs)...)
+	gs = append(gs, constructedPairGroups(sigmaPlus, 2, allCfgs)...)
 	gs = append(gs, templateGroups(sigma, 4, twoCfgs)...)
 	gs = append(gs, templatePairGroups("template", sigmaPlus, 2, allCfgs)...)
 	gs = append(gs, templatePairGroups("engine", sigmaPlus, 1, twoCfgs)...)
@@ -412,14 +464,13 @@ func run(c *mc.Ctx) {
 	if len(gs) > 0 {
 		off = int(uint64(c.Seed) % uint64(len(gs)))
 	}
-	done := 0
 	for k := range gs {
 		i := (k + off) % len(gs)
 		if !c.Mine(i) {
 			continue
 		}
 		if c.Expired() {
-			c.Cap(fmt.Sprintf("time budget reached after %d of this worker's groups; groups before the cap were enumerated completely", done))
+			c.Cap("time budget reached; every group (token-sequence prefix, or shape/template x first value symbol) started before the cap was enumerated completely")
 			break
 		}
 		nth := 0
@@ -438,7 +489,6 @@ func run(c *mc.Ctx) {
 				c.Sample(cs)
 			}
 		})
-		done++
 		c.Inc("groups")
 	}
 }
@@ -468,7 +518,7 @@ func guards(r *mc.Result, tier string) []string {
 			f = append(f, "never observed: "+fact)
 		}
 	}
-	for _, t := range tokenAlphabet {
+	for _, t := range tokensOf(tier) {
 		need("tok:" + t)
 	}
 	maxLen := 5
@@ -512,6 +562,6 @@ func init() {
 		Run:    run,
 		Replay: replayFn,
 		Guards: guards,
-		Budget: map[string]time.Duration{"quick": 4 * time.Minute, "thorough": 18 * time.Minute},
+		Budget: map[string]time.Duration{"quick": 10 * time.Minute, "thorough": 30 * time.Minute},
 	})
 }
